@@ -380,6 +380,59 @@ def run(ctx):
             else:
                 ctx.undec('R-PAIRCOLS', norm(c)[:40], 'src/PseudoNetCDF/%s _tracer_lookup.__missing__' % B, 'pairing idiom not recognised')
     ctx.floor('tau pair tables', npc, 1)
+    # ---- R-BLOCKID: the end of a time block is recognised by the full block identifier (category and tracer number)
+    ctx.rule('R-BLOCKID', 'first reader: a repeated (category, tracer number) pair - not the number alone - marks the start of the next time block')
+    b1 = bm.func('bpch1.__init__')
+    wb1 = 'src/PseudoNetCDF/%s bpch1.__init__' % B
+    rep = [st for st in iter_stmts(b1.body) if isinstance(st, ast.If) and 'first_header' in norm(st.test) and 'first_header is None' not in norm(st.test)]
+    rep += [st.orelse[0] for st in iter_stmts(b1.body) if isinstance(st, ast.If) and norm(st.test) == 'first_header is None' and st.orelse and isinstance(st.orelse[0], ast.If)]
+    if not rep:
+        ctx.undec('R-BLOCKID', 'repeat test', wb1, 'comparison with first_header not found')
+    else:
+        t = norm(rep[0].test)
+        idx = set(re.findall(r'first_header\[(\d+)\]', t))
+        if idx >= set(['7', '8']):
+            ctx.ok('R-BLOCKID', 'repeat test', wb1, t[:90])
+        else:
+            ctx.violation(Finding('R-BLOCKID', B, 'bpch1.__init__', rep[0], 'the next time block is detected by comparing field(s) %s of the first header only: a later category that reuses the first tracer number '
+                                  'ends the walk early (the reader raises, or silently falls back to the other reader)' % sorted(idx)))
+    # ---- R-IDKEEP: the tracer-table row never overwrites the identifier read from the block header
+    ctx.rule('R-IDKEEP', 'second reader: attributes copied from the tracer table skip tracerid (the block header id is kept)')
+    gi = nm.func('gcvar.__init__')
+    wgi = 'src/PseudoNetCDF/%s gcvar.__init__' % NB
+    lp = [st for st in iter_stmts(gi.body) if isinstance(st, ast.For) and 'dtype.names' in norm(st.iter) and any(isinstance(c, ast.Call) and dotted(c.func) == 'setattr' for c in ast.walk(st))]
+    if not lp:
+        ctx.undec('R-IDKEEP', 'row copy', wgi, 'attribute copy loop not found')
+    else:
+        skip = [s2 for s2 in lp[0].body if isinstance(s2, ast.If) and "'tracerid'" in norm(s2.test) and any(isinstance(x, ast.Continue) for x in s2.body)]
+        if skip:
+            ctx.ok('R-IDKEEP', 'row copy', wgi, norm(skip[0].test))
+        else:
+            ctx.violation(Finding('R-IDKEEP', NB, 'gcvar.__init__', lp[0], 'every field of the tracer-table row is copied onto the variable, including tracerid: for a category with an offset the variable then carries '
+                                  'offset + id instead of the id of its block header, the writer stores that, and re-reading applies the offset twice'))
+    # ---- R-DIAGFILTER: which lines of diaginfo.dat are data (finite case analysis of the filter)
+    from .. import consteval as _ce18
+    ctx.rule('R-DIAGFILTER', 'first reader: lines of diaginfo.dat that do not start with # are data lines (offsets are right-aligned, so they start with blanks)')
+    comps = [c for c in ast.walk(b1) if isinstance(c, ast.comprehension) and 'diaginfo.read()' in norm(c.iter)]
+    if not comps or not comps[0].ifs:
+        ctx.undec('R-DIAGFILTER', 'filter', wb1, 'diaginfo comprehension / filter not found')
+    else:
+        var = comps[0].target.id
+        wrong = unk = None
+        for line, want in (('# comment', False), ('#', False), ('       0 IJ-AVG-$                                 Tracer concentration', True), ('    1000 ANTHSRCE', True), ('10000000 BIGOFFSET', True)):
+            v_ = _ce18.ev(comps[0].ifs[0], {var: line})
+            if v_ is _ce18.UNK:
+                unk = line
+            elif bool(v_) != want:
+                wrong = (line, bool(v_))
+                break
+        if wrong:
+            ctx.violation(Finding('R-DIAGFILTER', B, 'bpch1.__init__', api.stmt_of(comps[0].ifs[0]), 'the diaginfo line %r is %s: category offsets are lost (every offset becomes 0), so tracers of categories with an offset '
+                                  'get the scale and unit of another tracerinfo line' % (wrong[0][:24], 'kept' if wrong[1] else 'dropped')))
+        elif unk:
+            ctx.undec('R-DIAGFILTER', 'filter', wb1, 'filter outside the evaluated fragment')
+        else:
+            ctx.ok('R-DIAGFILTER', 'filter', wb1, norm(comps[0].ifs[0]))
     # ---- shared pads + API
     c09.check_bpch_pads(ctx)
     nf = 0
